@@ -30,5 +30,6 @@ run 2f4595c C15
 run 661ff52 C14
 run 6980192 C14
 run ec81f66 C17
+run 36b0a82 C14
 for c in $(ls /verif/mutants/revert_*.diff | sed 's/.*revert_\(.*\)\.diff/\1/'); do grep -q "| $c |" $OUT || run $c C18; done
 cat $OUT
